@@ -348,7 +348,7 @@ def rule_chanorder(ctx):
 def rule_orient_order(ctx):
     """the frame origin is subtracted in unoriented coordinates: orientation is undone first, then the region is translated"""
     from ..facts import callee, op_local, op_place
-    from ..mirutil import Defs, strip_generics
+    from ..mirutil import Defs, strip_generics, helper_reaches
     rid = "R-ORIENT-ORDER"
     ctx.rule(rid, "in jxl-oxide, a requested region is mapped back through the orientation (Region::apply_orientation) before the "
                   "keyframe's frame origin (x0, y0 - unoriented frame coordinates) is subtracted with Region::translate; no "
@@ -360,7 +360,7 @@ def rule_orient_order(ctx):
         calls = [(b, t) for b, t in f.calls() if callee(t)]
         tr = [(b, t) for b, t in calls if strip_generics(callee(t)["fn"]).endswith("region::Region::translate")]
         ao = [(b, t) for b, t in calls if strip_generics(callee(t)["fn"]).endswith("region::Region::apply_orientation")]
-        if not tr or not ao:
+        if not tr:
             continue
         defs = Defs(f)
         ctx.seen(f)
@@ -414,7 +414,11 @@ def rule_orient_order(ctx):
             src = producer(op_local(t[2][0]))
             sc = strip_generics(callee(src)["fn"]) if src is not None and callee(src) else "?"
             key = "translate-after-orientation:%s" % f.path
-            if sc.endswith("Region::apply_orientation"):
+            via_helper = False
+            if src is not None and callee(src) and not sc.endswith("Region::apply_orientation"):
+                h = ox.fns.get(callee(src).get("res") or callee(src)["fn"]) or ox.fns.get(callee(src)["fn"])
+                via_helper = h is not None and helper_reaches(ox, h, lambda nm: strip_generics(nm).endswith("region::Region::apply_orientation"), depth=1)
+            if sc.endswith("Region::apply_orientation") or via_helper:
                 ctx.ok(rid, key, "translate(-x0, -y0) is applied to the result of apply_orientation", nontrivial=True, fn=f)
             else:
                 ctx.bad(rid, key + "|wrong-order", "the frame origin is subtracted from a region that has not been mapped back through the "
@@ -427,6 +431,78 @@ def rule_orient_order(ctx):
                         "origin: the origin is in unoriented coordinates", fn=f, pos=t[-2])
     ctx.counts[rid + ".sites"] = n
     ctx.floor(rid + ".sites", 1)
+
+
+def rule_stream_cursor(ctx):
+    """the sample stream can be drained in pieces: each cursor is advanced where it is consumed"""
+    rid = "R-STREAM-CURSOR"
+    ctx.rule(rid, "ImageStream::write_to_buffer is resumable: the caller may drain the stream with buffers of any length, so the position "
+                  "(y, x, c) lives in the stream and every component is advanced by a store of `component + 1` (checked add of the "
+                  "component's own load) - not only reset to 0.  A component that is read into a local loop variable and never "
+                  "written back is lost when the buffer runs out in the middle of a pixel: the next call re-emits channels already "
+                  "written and every later sample is shifted")
+    ox = ctx.prog.crate("jxl_oxide")
+    fs = [f for f in ox.fn_list if f.path.endswith("::write_to_buffer") and "ImageStream" in f.path and f.kind != "Promoted"]
+    if len(fs) != 1:
+        ctx.anchor_missing(rid, "jxl_oxide::fb::ImageStream::write_to_buffer")
+        return
+    f = fs[0]
+    ctx.seen(f)
+    from ..mirutil import Defs
+    defs = Defs(f)
+    advanced = set()
+    for blk in f.blocks:
+        if blk[2]:
+            continue
+        for st in blk[0]:
+            if st[0] != "=" or len(st[1]) < 2:
+                continue
+            fl = [e for e in st[1][1:] if isinstance(e, list) and e[0] == "."]
+            if not fl or fl[-1][2] not in ("x", "y", "c") or "ImageStream" not in str(fl[-1][3]):
+                continue
+            fld = fl[-1][2]
+            # the stored value: .0 of a checked add whose left operand is a load of the same field and right operand the constant 1
+            rv = st[2]
+            p = op_place(rv[1]) if rv[0] == "use" else None
+            if p is None:
+                continue
+            d = defs.single(p[0])
+            if not (d and d[2] == "assign" and d[3][2][0] == "bin" and d[3][2][1] in ("AddWithOverflow", "Add", "AddUnchecked")):
+                continue
+            a, c = d[3][2][2], d[3][2][3]
+            from ..facts import op_const_int
+            if op_const_int(c) != 1 and op_const_int(a) != 1:
+                continue
+            src = a if op_const_int(c) == 1 else c
+            l = op_local(src)
+            seen = set()
+            ok = False
+            sp = op_place(src)
+            if sp is not None and len(sp) > 1:
+                sf = [e for e in sp[1:] if isinstance(e, list) and e[0] == "."]
+                ok = bool(sf) and sf[-1][2] == fld
+                l = None
+            while l is not None and l not in seen:
+                seen.add(l)
+                dd = defs.single(l)
+                if not dd or dd[2] != "assign" or dd[3][2][0] != "use":
+                    break
+                q = op_place(dd[3][2][1])
+                if q is None:
+                    break
+                qf = [e for e in q[1:] if isinstance(e, list) and e[0] == "."]
+                if qf and qf[-1][2] == fld:
+                    ok = True
+                    break
+                l = q[0] if len(q) == 1 else None
+            if ok:
+                advanced.add(fld)
+    for fld in ("y", "x", "c"):
+        if fld in advanced:
+            ctx.ok(rid, "advanced:" + fld, "the `%s` cursor is advanced by a store of `%s + 1`" % (fld, fld), nontrivial=True, fn=f)
+        else:
+            ctx.bad(rid, "not-advanced:" + fld, "write_to_buffer never stores `%s + 1` into the stream's `%s` cursor: a write that stops in the "
+                    "middle of that dimension restarts it on the next call" % (fld, fld), fn=f)
 
 
 def rule_narrowcast(ctx):
@@ -478,6 +554,7 @@ def main(pid, tier, repo=None):
     rule_chanorder(ctx)
     rule_orient_order(ctx)
     rule_narrowcast(ctx)
+    rule_stream_cursor(ctx)
     from . import c05
     c05.rule_orient_scope(ctx)        # the orientation is applied at the API boundary only
     ctx.not_decided("float->integer rounding; sample-by-sample equality between interleaved, planar and stream outputs")
